@@ -395,7 +395,11 @@ struct UdpNet {
         ctx->step = S_DGRAM;
         pending = true;
     }
-    void pass() { pump(1); finish_pending(); }
+    void pass() {
+        pump(1);
+        finish_pending();
+        if (g_recv_longer_than_buffer) { vh::counter("udp_recvfrom_returned_more_than_the_buffer_holds", g_recv_longer_than_buffer); g_recv_longer_than_buffer = 0; }
+    }
     void drain() {
         for (int g = 0; sent > consumed && !ctx->by_id.empty() && g < 60; ++g) pass();
         if (sent > consumed && !ctx->by_id.empty() && !stuck_reported) {
@@ -482,6 +486,22 @@ struct Hist {
         } else if (w < 75) {
             Lk &L = c.lk[out[r.below(out.size())]];
             int srv = int(r.below(c.nsrv));
+            if (udp && r.chance(1, 7)) {
+                // a reply longer than the client's receive buffer: the client holds only its first 4096 bytes, which are a reply cut
+                // inside a record - it may ignore it or answer from what it holds; a normal reply may follow
+                std::string layout;
+                Bytes big = c15gen::make_oversized(r, L.id, L.domain, layout);
+                c15ref::Info full = c15ref::classify(big.data(), big.size());
+                vh::counter("udp_oversized_datagrams_sent");
+                vh::counter("udp_oversized_" + layout);
+                if (full.strict && big.size() > 4096) vh::counter("udp_oversized_reply_crossing_4096");
+                vh::counter_max("max_udp_datagram_bytes", big.size());
+                uint16_t id = L.id; std::string dom = L.domain;   // L may be gone after the send
+                ++n_replies;
+                send(big, srv, "oversized");
+                if (r.chance(1, 2)) { vh::counter("udp_oversized_followed_by_normal_reply"); send(c15gen::make_reply(r, id, dom).b, int(r.below(c.nsrv)), "strict-after-oversized"); }
+                return;
+            }
             unsigned k = r.below(100);
             ++n_replies;
             if (k < 42) send(c15gen::make_reply(r, L.id, L.domain).b, srv, "strict");
